@@ -338,7 +338,7 @@ class TreeLikelihoodModel(CallableModel):
         else:
             if branch_lengths.dim() == 1:
                 bls = self.clock_model.rates * branch_lengths.expand(
-                    sample_shape + (1, -1)
+                    sample_shape + (-1,)
                 )
             else:
                 bls = self.clock_model.rates * branch_lengths
